@@ -19,7 +19,7 @@ RULE = ('2-3 threads, each Builder() + add_source(own file, safe=own flag) + bui
         '!unsafe markers and failing inputs (parse error, missing include, merge error), run under a generated schedule of <=200 '
         '(thread, quantum) pairs with quanta biased to 1-20 line events inside the awesomeyaml package; non-trivial = >=3 context switches '
         'and threads differing in file and safe flag, or one thread failing; distinct = hash of the case')
-BUDGET = {'quick': (4, 120), 'thorough': (16, 2500)}
+BUDGET = {'quick': (4, 50), 'thorough': (16, 1500)}
 SHRINK_CAP = {'quick': 60, 'thorough': 400}
 ASSUMPTIONS = ['context switches happen only at python line events inside the awesomeyaml package (not inside PyYAML / C code): the granularity the property states',
                'interleavings are sampled; each sampled interleaving is exact and replayable; nothing is claimed for interpreters without a GIL']
@@ -41,7 +41,7 @@ def _case(draw):
     pattern = draw(st.lists(pair, min_size=1, max_size=6))
     reps = draw(st.integers(1, 40))
     sched = (prefix + pattern * reps)[:200]
-    return {'bodies': bodies, 'schedule': [list(s) for s in sched], 'tail': draw(st.sampled_from([1, 2, 3, 5, 8, 13, 21, 40, 90]))}
+    return {'bodies': bodies, 'schedule': [list(s) for s in sched], 'tail': draw(st.sampled_from([2, 5, 8, 13, 21, 40, 90, 200]))}
 
 
 def strategy():
